@@ -9,6 +9,7 @@ import (
 	"os"
 	"strings"
 
+	"github.com/nsqio/nsq/internal/dirlock"
 	"github.com/nsqio/nsq/internal/verifrt"
 )
 
@@ -423,4 +424,38 @@ func VerifC06_ConcurrentPausesArePersisted() {
 	verifrt.Assert(verifC06TopicSet(n2) == want, "every-acknowledged-pause-is-in-the-persisted-document")
 	verifrt.Reach("both-persisted", verifC06TopicSet(n2) == want)
 	_ = fn
+}
+
+// Shutdown keeps the data-path lock until every subsystem goroutine has stopped: while anything
+// of the old daemon can still write (metadata, queues), no second nsqd may take the data path.
+// The real NSQD.Exit runs with one subsystem goroutine that finishes its work only after the exit
+// signal; the lock's Unlock is observed.
+func VerifC06_ExitReleasesTheLockLast() {
+	o := verifOpts()
+	n := verifShellNSQD(o)
+	verifrt.StubNative("(*github.com/nsqio/nsq/nsqd.NSQD).Notify", verifNotifyNop)
+	verifrt.StubNative("(*github.com/nsqio/nsq/nsqd.NSQD).PersistMetadata", func(n *NSQD) error { return nil })
+	subsystemDone, unlocked, unlockedEarly := false, 0, false
+	verifrt.StubNative("(*github.com/nsqio/nsq/internal/dirlock.DirLock).Unlock", func(l *dirlock.DirLock) error {
+		unlocked++
+		if !subsystemDone {
+			unlockedEarly = true
+		}
+		return nil
+	})
+	n.dl = dirlock.New(o.DataPath)
+	n.ctxCancel = func() {}
+	verifrt.Atomic(func() {
+		n.GetTopic("t")
+		n.waitGroup.Wrap(func() {
+			<-n.exitChan
+			verifrt.Yield() // still busy (e.g. flushing) when the exit signal has been given
+			subsystemDone = true
+		})
+	})
+	n.Exit()
+	verifrt.Join()
+	verifrt.Assert(unlocked == 1, "exit-releases-the-data-path-lock-once")
+	verifrt.Assert(!unlockedEarly, "data-path-lock-released-only-after-every-subsystem-stopped")
+	verifrt.Reach("exit-completed", subsystemDone && unlocked == 1)
 }
